@@ -123,7 +123,7 @@ pub struct Gen<'a> {
     counter: usize,
 }
 
-const STRS: &[&str] = &["", "a", "ab", "key", "value", "xyz"];
+const STRS: &[&str] = &["", "a", "ab", "key", "value", "xyz", "z\u{df}\u{20ac}"];
 
 impl<'a> Gen<'a> {
     pub fn new(rng: &'a mut Rng, prof: Profile) -> Self {
